@@ -96,9 +96,23 @@ def gen_user_yaml(t) -> str:
         banner_at = len(secs)           # where the template has it: after the linter sections
     elif bmode < 6 and secs:
         banner_at = t.draw(len(secs), "banner_pos")   # moved between sections
+    style = t.draw(8, "banner_style")
+    if style < 4:
+        banner = BANNER
+    elif style == 4:
+        banner = "# GLOBAL SETTINGS\n"                       # hand-trimmed: title only, no rule lines
+    elif style == 5:
+        banner = "# ==========\n# GLOBAL SETTINGS\n# ==========\n"   # rule lines of another width
+    elif style == 6:
+        banner = "#\n# GLOBAL SETTINGS\n#\n"
+    else:
+        banner = BANNER.replace("GLOBAL SETTINGS", "GLOBAL SETTINGS (team overrides below)")
+    tight = t.chance(1, 2, "banner_tight")    # banner directly after a content line, no blank line
     for i, s in enumerate(secs):
         if banner_at == i:
-            parts.append(BANNER + "\n")
+            if tight and parts and parts[-1] == "\n":
+                parts.pop()
+            parts.append(banner + ("" if tight else "\n"))
         name = s.replace("-", "_") if ("-" in s and t.chance(1, 2, "spell")) else s
         if t.chance(1, 6, "quote_key"):
             name = f'"{name}"'
@@ -114,7 +128,9 @@ def gen_user_yaml(t) -> str:
         if t.chance(1, 2, "gap"):
             parts.append("\n")
     if banner_at == len(secs):
-        parts.append(BANNER)
+        if tight and parts and parts[-1] == "\n":
+            parts.pop()
+        parts.append(banner)
     if t.chance(1, 2, "ignore"):
         parts.append("ignore:\n  - \"gen/\"\n  - \"*.min.js\"\n")
     if t.chance(1, 3, "extra"):
@@ -122,7 +138,9 @@ def gen_user_yaml(t) -> str:
     if t.chance(1, 4, "outfmt"):
         parts.append("output_format: text\n")
     if t.chance(1, 6, "scalar_tail"):
-        parts.append("notes: |\n  first line\n  second line\n")
+        parts.append("notes: |" + t.pick(["", "", "+", "-"], "chomp") + "\n  first line\n  second line\n" + ("\n\n" if t.chance(1, 3, "scalar_blank") else ""))
+    if t.chance(1, 10, "marker_in_scalar"):
+        parts.append("banner_text: |\n  # ============================================================================\n  # GLOBAL SETTINGS\n  keep this\n")
     text = "".join(parts)
     if not text.strip() or not secs and not t.chance(1, 2, "empty_ok"):
         text += "rules: {}\n"
@@ -305,12 +323,12 @@ class _Runner:
         self.zy, self.W, self.sc, self.real = zy, W, sc, real
         self.n = 0
 
-    def env(self):
+    def env(self, cwd=None):
         self.n += 1
-        return {"cwd": str(self.W.proj), "home": str(self.W.home), "tmp": str(self.W.tmp), "walk": "sorted",
+        return {"cwd": cwd or str(self.W.proj), "home": str(self.W.home), "tmp": str(self.W.tmp), "walk": "sorted",
                 "tape": {"seed": 0}, "tap": None}
 
-    def cli(self, argv: list[str], write_fault: dict | None = None) -> dict:
+    def cli(self, argv: list[str], write_fault: dict | None = None, cwd: str | None = None) -> dict:
         if write_fault:
             wf = dict(write_fault, prefix=str(self.W.proj))
             r = self.zy.call("vsim.ops:cli_call", {"env": self.env(), "argv": argv, "write_fault": wf}, timeout=300, exit="_exit")
@@ -319,9 +337,9 @@ class _Runner:
             return r["value"]
         if self.real:
             env = dict(os.environ, HOME=str(self.W.home), TMPDIR=str(self.W.tmp), PYTHONHASHSEED=str(self.sc.get("hashseed", 0)))
-            r = subprocess.run([sys.executable, "-m", "src.cli"] + argv, cwd=str(self.W.proj), env=env, capture_output=True, text=True, timeout=300)
+            r = subprocess.run([sys.executable, "-m", "src.cli"] + argv, cwd=cwd or str(self.W.proj), env=env, capture_output=True, text=True, timeout=300)
             return {"exit": r.returncode, "stdout": r.stdout, "stderr": r.stderr, "exc": None}
-        r = self.zy.call("vsim.ops:cli_call", {"env": self.env(), "argv": argv}, timeout=300, exit="_exit")
+        r = self.zy.call("vsim.ops:cli_call", {"env": self.env(cwd), "argv": argv}, timeout=300, exit="_exit")
         if not r["ok"]:
             return {"exit": None, "stdout": "", "stderr": r.get("exc") or "", "exc": r.get("exc_type") or r.get("kind")}
         return r["value"]
@@ -549,8 +567,13 @@ def _do_init(R, W, ev, failures, stats, note_write, step):
             for k in sorted(b):
                 if k not in a or _canon(a[k]) != _canon(b[k]):
                     spelled = [str(x) for x in doc_before if _norm(x) == k]
-                    sp = "underscore" if any("_" in s for s in spelled) and "_" in k and not any("-" in s for s in spelled) else "hyphen" if any("-" in s for s in spelled) else "plain"
-                    failures.append(_fail("setting-lost", tag, f"spelling={sp}", key=k, before=b[k], after=a.get(k, "<absent>"), step=step))
+                    if isinstance(b[k], str) and isinstance(a.get(k), str) and a[k].rstrip("\n") == b[k].rstrip("\n"):
+                        dt = "final-block-scalar-trailing-newlines"
+                    elif k in {_norm(x) for x in SECTIONS}:
+                        dt = "spelling=" + ("hyphen" if any("-" in x for x in spelled) else "underscore" if "_" in k else "plain")
+                    else:
+                        dt = "non-linter-key"
+                    failures.append(_fail("setting-lost", tag, dt, key=k, before=b[k], after=a.get(k, "<absent>"), step=step))
         added_raw = [k for k in doc_after if k not in doc_before]
         stats["merge_added"] += len(added_raw)
         norm_before = {_norm(k) for k in doc_before}
@@ -577,8 +600,17 @@ def _do_init(R, W, ev, failures, stats, note_write, step):
         if err_after is not None or not isinstance(doc_after, dict):
             failures.append(_fail("invalid-yaml", tag, f"preset={preset}", error=err_after, step=step))
             return
+        # acceptance is judged in a clean project that holds nothing but the sources and the generated
+        # file: another config of this history (a user's, or one a write-fault probe damaged) must not
+        # be blamed on the preset
+        R.accept_n = getattr(R, "accept_n", 0) + 1
+        adir = W.root / f"accept-{R.accept_n}"
+        for rel, content in sorted(R.sc["project"].items()):
+            W.write(rel, content, base=adir)
+        with open(adir / ".thailint.yaml", "wb") as f:
+            f.write(after)
         for cmd in ev["lint_cmds"]:
-            lr = R.cli([cmd, "--config", out, "--format", "json", "src"])
+            lr = R.cli([cmd, "--config", ".thailint.yaml", "--format", "json", "src"], cwd=str(adir))
             stats["lint_runs"] += 1
             if lr["exit"] not in (0, 1):
                 failures.append(_fail("preset-rejected", tag, f"preset={preset} linter={cmd}", exit=lr["exit"], stderr=lr["stderr"][-400:],
